@@ -1259,14 +1259,17 @@ static void swap_bitfields(struct uftrace_record *rstack)
 static int __read_task_ustack(struct uftrace_task_reader *task)
 {
 	FILE *fp = task->fp;
+	struct uftrace_record rec;
 
-	if (fread(&task->ustack, sizeof(task->ustack), 1, fp) != 1) {
+	/* task->rstack may still point to task->ustack: keep it intact on a short read */
+	if (fread(&rec, sizeof(rec), 1, fp) != 1) {
 		if (feof(fp))
 			return -1;
 
 		pr_warn("error reading rstack: %s\n", strerror(errno));
 		return -1;
 	}
+	task->ustack = rec;
 
 	if (task->h->needs_byte_swap)
 		swap_byte_order(&task->ustack);
